@@ -49,11 +49,16 @@ def parseKwVal (n : KwName) (j : Json) : Except String KwVal :=
     return .pairs ps
   | .attr .validators, j | .attr .descentValidators, j => do return .labels (← (← arr j).mapM nat)
   | .attr .fieldSchema, j => do
+    -- a member is [name, optional] (a fresh Integer) or ["ref", i, j, optional|null] (the j-th member of
+    -- class i's current field_schema, possibly .using(optional=…))
     let ms ← (← arr j).mapM (fun p => do
       match (← arr p) with
-      | [n, o] => pure ((← chars n), (← bool o))
+      | [n, o] => pure (Sum.inl ((← chars n), (← bool o)) : Sum (C06.Str × Bool) (ClassId × Nat × Option Bool))
+      | [_, i, k, o] => pure (Sum.inr ((← nat i), (← nat k), (← optOf bool o)))
       | _ => throw "bad member")
-    return .members ms
+    if ms.all (fun m => match m with | .inl _ => true | .inr _ => false) then
+      return .members (ms.filterMap (fun m => match m with | .inl x => some x | .inr _ => none))
+    else return .memberRefs ms
   | _, .null => pure .none
   | _, .bool b => pure (.bool b)
   | _, .str s => pure (.str s.toList)
@@ -100,10 +105,8 @@ def ofItem : Item → Json
   | .label n => ofNat n
   | .cls c => ofNat c
   | .str s => ofChars s
-  | .gen name fmt opt => obj [("gen", Json.bool true), ("name", ofChars name), ("optional", Json.bool opt),
-                              ("format", ofChars fmt)]
-  | .user name opt => obj [("gen", Json.bool false), ("name", ofChars name), ("optional", Json.bool opt),
-                           ("format", Json.str "%i")]
+  | .gen name fmt opt => obj [("name", ofChars name), ("optional", Json.bool opt), ("format", ofChars fmt)]
+  | .user name opt => obj [("name", ofChars name), ("optional", Json.bool opt), ("format", Json.str "%i")]
 
 def ofAtom : Val → Json
   | .none => Json.null
@@ -169,6 +172,7 @@ def instSnapshot (σ : State) (c : ClassId) (kw : List (KwName × KwVal)) : Json
   obj (kw.filterMap (fun p => match p.1, p.2 with
     | .attr a, .labels ls => some (attrName a, ofList ofNat ls)
     | .attr a, .members ms => some (attrName a, ofList ofItem (ms.map (fun m => Item.user m.1 m.2)))
+    | .attr a, .memberRefs ms => some (attrName a, ofList ofItem (resolveMembers σ σ.classes.length ms))
     | .attr a, v => some (attrName a, cval σ a (some (atomOf v)))
     | .properties, .pairs ps =>
       some ("properties", ofList (fun (kv : C06.Str × Int) => Json.arr #[ofChars kv.1, ofInt kv.2])
